@@ -105,7 +105,7 @@ def body(ck, F, cfg):
                 # unreachable if the enclosing condition was constant-false on every TERM visit
                 enc = [e for q, e in ifs if PN.contains(q, px)]
                 reach_g = [e for q, e in pguards if PN.contains(q, px)]
-                if EV and p == EV["fn"]:
+                if EV and (p == EV["fn"] or p.startswith(EV["fn"] + "::{closure")):
                     bad = {v: w for v, w in EV["constructed"].items() if v not in EV["handled"]}
                     rule = "ERR_VARIANTS"
                     ok = not bad
